@@ -1,6 +1,7 @@
 import QV.Shared.SchedFrames
 import QV.C24.Spec
 import QV.C23.Lemmas
+import QV.Shared.HandlerLemmas
 /-
 C24 — Frame conflicts are ordered and every frame edge is justified.
 Property theorems only; the invariants live in `QV.Shared.SchedLemmas` / `QV.Shared.SchedFrames`.
@@ -400,6 +401,136 @@ theorem C24_hyp_checker (b : Block) (h : hypB b = true) : Hyp b := by
   have := h.2
   rw [ht] at this
   simpa using this
+
+/-! ### Composition with C26: the frame clauses over the SPECIFICATION of which frames an instruction uses / blocks
+
+`HandlerFromAst.answersOf` computes `matching_frames` from the shared full AST through C26's proved model;
+`FrameAccessA p i f .write` / `.read` is C26's specification "`i` uses / blocks the defined frame `f`"
+(`UsedBy` / `BlockedBy`, with the program's used qubits).  The hypothesis `Hyp` of `C24_build_frameSpec` is a
+THEOREM here (`schedBlock_hyp`): used and blocked frames are disjoint sets of defined frames, the terminator is
+a control-flow instruction. -/
+
+open QV.HandlerFromAst in
+/-- node `x` of the block is an instruction that (by C26's specification) interacts with frame `f` in way `k` -/
+def ATouches (p : AProgram) (ab : ABlock) (timed : Bool) (x : Node) (f : C26.Frame) (k : Kind) : Prop :=
+  ∃ i, (x, i) ∈ ab.items ∧ FrameAccessA p i f k ∧ (timed = true → HandlerFromAst.isScheduled i = true)
+
+open QV.HandlerFromAst in
+structure AstFrameSpec (p : AProgram) (ab : ABlock) (es : List Edge) : Prop where
+  /-- instructions in block order of which one uses a frame the other uses or blocks (C26's specification) are
+  ordered through `StableOrdering` edges, and through `Scheduled` edges when both are timed -/
+  ordered : ab.items.Pairwise fun x y => ∀ f k1 k2, FrameAccessA p x.2 f k1 → FrameAccessA p y.2 f k2 →
+    Conflict k1 k2 → Reach es isStable x.1 y.1 ∧
+      (HandlerFromAst.isScheduled x.2 = true → HandlerFromAst.isScheduled y.2 = true →
+        Reach es isScheduled x.1 y.1)
+  fromStart : ∀ x ∈ ab.items, (∃ f k, FrameAccessA p x.2 f k) → Reach es isStable .start x.1 ∧
+    (HandlerFromAst.isScheduled x.2 = true → Reach es isScheduled .start x.1)
+  /-- every `Scheduled` edge goes forward and joins timed instructions conflicting on a frame, or a block boundary -/
+  schedJust : ∀ e ∈ es, e.label = .scheduled →
+    e.src.pos ab.instrs.length < e.dst.pos ab.instrs.length ∧
+    ((∃ f k1 k2, ((e.src = .start ∧ k1 = .write) ∨ ATouches p ab true e.src f k1) ∧ ATouches p ab true e.dst f k2 ∧
+        Conflict k1 k2) ∨
+     (e.dst = .stop ∧ (e.src = .start ∨ ∃ f k, ATouches p ab true e.src f k)))
+  /-- every `StableOrdering` edge goes forward and is frame-justified, a boundary edge, or a classical one -/
+  stableJust : ∀ e ∈ es, e.label = .stable →
+    e.src.pos ab.instrs.length < e.dst.pos ab.instrs.length ∧
+    ((∃ f k1 k2, ((e.src = .start ∧ k1 = .write) ∨ ATouches p ab false e.src f k1) ∧ ATouches p ab false e.dst f k2 ∧
+        Conflict k1 k2) ∨
+     (e.dst = .stop ∧ (e.src = .start ∨ ∃ f k, ATouches p ab false e.src f k)) ∨
+     ((e.src = .start ∧ ∃ i, (e.dst, i) ∈ ab.items ∧ HandlerFromAst.role i = .classical) ∨
+      ((∃ i, (e.src, i) ∈ ab.items ∧ HandlerFromAst.role i = .classical) ∧ e.dst = .stop) ∨
+      (e.src = .start ∧ e.dst = .stop ∧ ab.instrs = [])))
+
+open QV.HandlerFromAst in
+private theorem touches_ast {p : AProgram} {ab : ABlock} {t : Bool} {x : Node} {fid : Nat} {k : Kind}
+    (h : TouchesF (schedBlock p ab) t x fid k) : ∃ f, fid = frameId p f ∧ ATouches p ab t x f k := by
+  obtain ⟨ins, hi, hm, ht⟩ := h
+  rw [schedBlock_items] at hi
+  obtain ⟨y, hy, hye⟩ := List.mem_map.1 hi
+  simp only [Prod.mk.injEq] at hye
+  obtain ⟨hy1, rfl⟩ := hye
+  obtain ⟨f, hf1, hf2⟩ := (mem_frameAccesses_answers p y.2 (fid, k)).1 hm
+  exact ⟨f, hf1, y.2, by rw [← hy1]; exact hy, hf2, fun h => by simpa [answersOf] using ht h⟩
+
+open QV.HandlerFromAst in
+private theorem frameAccessA_defined {p : AProgram} {i : Ast.Instruction} {f : C26.Frame} {k : Kind}
+    (h : FrameAccessA p i f k) : f ∈ definedFrames p := by
+  cases k
+  · exact h.1
+  · exact h.1
+  · exact absurd h (by simp [FrameAccessA])
+
+open QV.HandlerFromAst in
+/-- **C24 ∘ C26 (every AST program, every block).** The frame clauses hold for the graph built from the default
+handler's answers computed from the AST, with "uses / blocks frame f" meaning C26's specification — and without
+any hypothesis about the handler. -/
+theorem C24_ast_frameSpec (p : AProgram) (ab : ABlock) (hab : ab ∈ astBlocks p) (es : List Edge)
+    (h : buildBlock (schedBlock p ab) = .ok es) : AstFrameSpec p ab es := by
+  have hspec := C24_build_frameSpec _ es h (schedBlock_hyp p ab hab)
+  have hlen : (schedBlock p ab).instrs.length = ab.instrs.length := by simp [schedBlock]
+  have toF : ∀ (x : Node × Ast.Instruction) f k, FrameAccessA p x.2 f k →
+      (frameId p f, k) ∈ frameAcc (answersOf p x.2) :=
+    fun x f k hf => (mem_frameAccesses_answers p x.2 (frameId p f, k)).2 ⟨f, rfl, hf⟩
+  have sameFrame : ∀ {x y : Node} {t : Bool} {f g : C26.Frame} {k1 k2 : Kind},
+      ATouches p ab t x f k1 → ATouches p ab t y g k2 → frameId p f = frameId p g → f = g := by
+    rintro x y t f g k1 k2 ⟨_, _, h1, _⟩ ⟨_, _, h2, _⟩ heq
+    exact indexIn_inj _ f g (frameAccessA_defined h1) (frameAccessA_defined h2) heq
+  have frameJust : ∀ t e, FrameJust (schedBlock p ab) t e →
+      ∃ f k1 k2, ((e.src = .start ∧ k1 = .write) ∨ ATouches p ab t e.src f k1) ∧ ATouches p ab t e.dst f k2 ∧
+        Conflict k1 k2 := by
+    rintro t e ⟨fid, k1, k2, hsrc, hdst, hc⟩
+    obtain ⟨g, hg1, hg2⟩ := touches_ast hdst
+    rcases hsrc with hs | hs
+    · exact ⟨g, k1, k2, .inl hs, hg2, hc⟩
+    · obtain ⟨f, hf1, hf2⟩ := touches_ast hs
+      have : f = g := sameFrame hf2 hg2 (by rw [← hf1, ← hg1])
+      subst this
+      exact ⟨f, k1, k2, .inr hf2, hg2, hc⟩
+  have endJust : ∀ t e, EndJust (schedBlock p ab) t e →
+      e.dst = .stop ∧ (e.src = .start ∨ ∃ f k, ATouches p ab t e.src f k) := by
+    rintro t e ⟨h1, h2⟩
+    refine ⟨h1, h2.imp id ?_⟩
+    rintro ⟨fid, k, ht⟩
+    obtain ⟨f, _, hf⟩ := touches_ast ht
+    exact ⟨f, k, hf⟩
+  have classical : ∀ x, IsClassical (schedBlock p ab) x → ∃ i, (x, i) ∈ ab.items ∧ role i = .classical := by
+    rintro x ⟨ins, hi, hr⟩
+    rw [schedBlock_items] at hi
+    obtain ⟨y, hy, hye⟩ := List.mem_map.1 hi
+    simp only [Prod.mk.injEq] at hye
+    obtain ⟨hy1, rfl⟩ := hye
+    exact ⟨y.2, by rw [← hy1]; exact hy, by simpa [answersOf] using hr⟩
+  refine ⟨?_, ?_, ?_, ?_⟩
+  · have ho := hspec.ordered
+    rw [schedBlock_items, List.pairwise_map] at ho
+    refine ho.imp ?_
+    intro x y hxy f k1 k2 h1 h2 hc
+    have := hxy (frameId p f) k1 k2 (toF x f k1 h1) (toF y f k2 h2) hc
+    exact ⟨this.1, fun s1 s2 => this.2 (by simpa [answersOf] using s1) (by simpa [answersOf] using s2)⟩
+  · intro x hx ⟨f, k, hf⟩
+    have hne : frameAcc (answersOf p x.2) ≠ [] := by
+      intro hnil
+      have := toF x f k hf
+      rw [hnil] at this; simp at this
+    have := hspec.fromStart (x.1, answersOf p x.2) (by
+      rw [schedBlock_items]; exact List.mem_map.2 ⟨x, hx, rfl⟩) hne
+    exact ⟨this.1, fun s => this.2 (by simpa [answersOf] using s)⟩
+  · intro e he hl
+    obtain ⟨hpos, hj⟩ := hspec.schedJust e he hl
+    rw [hlen] at hpos
+    exact ⟨hpos, hj.imp (frameJust true e) (endJust true e)⟩
+  · intro e he hl
+    obtain ⟨hpos, hj⟩ := hspec.stableJust e he hl
+    rw [hlen] at hpos
+    refine ⟨hpos, ?_⟩
+    rcases hj with hj | hj | hj
+    · exact .inl (frameJust false e hj)
+    · exact .inr (.inl (endJust false e hj))
+    · right; right
+      rcases hj with ⟨h1, h2⟩ | ⟨h1, h2⟩ | ⟨h1, h2, h3⟩
+      · exact .inl ⟨h1, classical _ h2⟩
+      · exact .inr (.inl ⟨classical _ h1, h2⟩)
+      · exact .inr (.inr ⟨h1, h2, by simpa [schedBlock] using h3⟩)
 
 /-! ### Non-vacuity -/
 
